@@ -179,6 +179,17 @@ static std::string run_case(const toks_t& t)
         cellref.copy_and_verify([&](std::unique_ptr<T> v) { if (v) o = inspect(v.get(), sizeof(T)); return 0; });
         return o;
       });
+    } else if (variant == "uspc") {
+      // unverified_safe_pointer_because(count) on a pointer cell of the window (C10)
+      auto pp = g_sb->UNSAFE_accept_pointer(reinterpret_cast<char**>(g_win + off));
+      auto& cellref = *pp;
+      g_be_seen = false;
+      rlbox::verif_backend_hook = be_hook;
+      char* got = nullptr;
+      try { got = cellref.unverified_safe_pointer_because(a, "bulk operation follows"); }
+      catch (...) { rlbox::verif_backend_hook = nullptr; throw; }
+      rlbox::verif_backend_hook = nullptr;
+      out = "A " + std::to_string(got == nullptr ? 0 : reinterpret_cast<uintptr_t>(got) - g_base);
     } else if (variant == "cvba" || variant == "cva") {
       auto pp = g_sb->UNSAFE_accept_pointer(reinterpret_cast<char**>(g_win + off));
       auto& cellref = *pp;      // tainted_volatile<char*>&: the pointer itself lives in sandbox memory
